@@ -1,6 +1,6 @@
 #!/bin/bash
 # Runs every claimed check (quick tier by default) on /repo and prints one summary line per property.
-cd /verif
+cd "$(dirname "$0")/.."
 T=${1:-quick}; S=${2:-1}
 for p in $(/venv/bin/python -c "import json; print(' '.join(c['property_id'] for c in json.load(open('MANIFEST.json'))['checks']))" 2>/dev/null); do
   start=$(date +%s)
